@@ -82,6 +82,7 @@ static void scan_pool_victims(void);
 void mon_call_begin(proc *pr)
 {
     if (pr->op == OP_CWAIT) pr->cond_seen_false = !pred_now(pr->id);
+    pr->call_evseq = ev_seq;
     if (pr->op == OP_PPRE) {
         scan_pool_victims();         /* settle what happened before this call, under the old reference */
         for (int i = 0; i < W.np; i++) prio_ref[i] = PR[i].pp->priority;
@@ -181,6 +182,21 @@ static bool match_cause(proc *pr, int64_t ret, int want_kind, int want_ref)
     }
     if (best) {
         best->state = CS_DELIVERED;
+        if (best->kind == CK_INTR && cmb_event_queue_count() == 0) PROBE("probe.interrupt_with_otherwise_empty_queue");
+        if (best->kind == CK_TIMER && cmb_event_queue_count() == 0) PROBE("probe.timer_with_otherwise_empty_queue");
+        {   /* was a grant already on its way when this cause got there first? */
+            const int g = guard_of_wait(pr);
+            if (g >= 0 && pr->call_evseq != ev_seq) {
+                bool was_in = false;
+                for (int b = 0; b < ngbefore[g]; b++) if (gbefore[g][b].pid == pr->id) was_in = true;
+                if (!was_in) {
+                    if (best->kind == CK_TIMER) PROBE("probe.grant_then_timeout_same_instant");
+                    else if (best->kind == CK_INTR) PROBE("probe.grant_then_interrupt_same_instant");
+                    else if (best->kind == CK_PREEMPT) PROBE("probe.grant_then_preempt_notice_same_instant");
+                    else PROBE("probe.grant_then_other_same_instant");
+                }
+            }
+        }
         if (best->kind == CK_INTR || best->kind == CK_PREEMPT) timers_maybe(pr);
         if (best->kind == CK_TIMER) PROBE("c04.timer_delivered");
         if (best->kind == CK_INTR) PROBE("c04.interrupt_delivered");
@@ -201,8 +217,7 @@ static bool match_cause(proc *pr, int64_t ret, int want_kind, int want_ref)
     else if (ret == CMB_PROCESS_STOPPED || ret == CMB_PROCESS_CANCELLED || ret == CMB_PROCESS_PREEMPTED) {
         static char s2[64]; snprintf(s2, sizeof s2, "%s/code%" PRId64, sig, -ret); sig = s2;
     }
-    char full[96]; snprintf(full, sizeof full, "%s/%s", sig, opname[pr->op]);
-    viol("C04", full, "process %d: %s returned %" PRId64 " at t=%g with no matching undelivered cause (call at t=%g)",
+    viol("C04", sig, "process %d: %s returned %" PRId64 " at t=%g with no matching undelivered cause (call at t=%g)",
          pr->id, opname[pr->op], ret, now, pr->call_t);
     return false;
 }
@@ -280,6 +295,7 @@ void mon_call_ret(proc *pr, int64_t ret)
                 }
             }
             W.res_holder[r] = pr->id; pr->holds_res[r] = true;
+            if (pr->rel_evseq[r] == W.seq + 1) PROBE("probe.release_and_reacquire_in_one_event");
             if (now == pr->call_t && W.seq > 0) PROBE("res.acquired_without_wait");
         } else match_cause(pr, ret, 0, 0);
         kill_call_causes(pr, CK_GCANCEL);
